@@ -819,14 +819,14 @@ func (g *genState) genPool(s *scen, bts int64, patch bool, n int) []PoolTx {
 	var pool []PoolTx
 	for len(pool) < n {
 		// a transaction that is already part of the chain
-		if !patch && len(s.chain) > 1 && r.Intn(6) == 0 {
+		if !patch && len(s.chain) > 1 && r.Intn(4) == 0 {
 			inc := s.chain[1+r.Intn(len(s.chain)-1)]
 			if inc.tx != nil {
 				pool = append(pool, PoolTx{TxIn: *inc.tx, Direct: r.Intn(2) == 0})
 				continue
 			}
 		}
-		if patch && len(s.pchain) > 0 && r.Intn(3) == 0 {
+		if patch && len(s.pchain) > 0 && r.Intn(2) == 0 {
 			inc := s.pchain[r.Intn(len(s.pchain))]
 			pool = append(pool, PoolTx{TxIn: *inc.tx, Direct: r.Intn(2) == 0})
 			continue
@@ -909,7 +909,7 @@ func (g *genState) genBlock(s *scen, idx, total int) BlockPlan {
 		n = 0
 	}
 	bp.Pool = g.genPool(s, bp.BTS, false, n)
-	if idx > 0 && r.Intn(3) == 0 {
+	if idx > 0 && r.Intn(2) == 0 {
 		bp.PatchPool = g.genPool(s, bp.BTS, true, 1+r.Intn(5))
 	}
 	// limits: around prefix sums of the serialised sizes / small counts
@@ -1102,7 +1102,7 @@ func gen(c *hxlib.Ctx) {
 	for i := 0; i < scenarios; i++ {
 		plan := &ScenPlan{P: genParams(c.Rand)}
 		g.next = 1
-		nBlocks := 1 + c.Rand.Intn(4)
+		nBlocks := 1 + c.Rand.Intn(5)
 		err := runScenario(plan, g, nBlocks, func(em emitted) {
 			in := replayIn{Plan: *plan, Block: em.block, Kind: em.kind, Extra: em.extra}
 			// the plan grows while the scenario runs: copy the blocks seen so far
@@ -1168,7 +1168,7 @@ func replay(raw json.RawMessage) string {
 func main() {
 	hxlib.Main(hxlib.Spec{
 		ID: "C37",
-		Rule: "scenarios on a real service.Manager (real pools, TXIDManager, locator manager, transitions; basic platform; in-memory db): genesis with random balances (0, tight, large), step price {0,1,7,10,1000}, step costs, timestamp threshold {default 5 min, 1, 2, 5, 50 ms}; 1..4 blocks with block timestamps stepping by {1, 2, 500, th/2, th-1, th, th+1, 2th, 2th+1, 3th, 5th} (eviction, maxTSInDB); per block a fresh pool of 0..12 signed v3 transactions (timestamps at bts-th-1, bts-th, bts-th+1, bts+-1, bts+th-1, bts+th, bts+th+1, inside, far outside; four shared senders with values that exhaust / exceed by one / leave one of the working balance; recipients that spend what they just received; from = to; step limits at minimum, minimum-1; message data; transactions of earlier blocks offered again; the same transaction added twice), limits at prefix sums of the sizes +-1, counts 1..4, defaults (<= 0); one block in four followed by a block proposed on an unfinalized parent; one block in three with a patch-group pool; plus extra lists (whole pool, duplicate, reversed, foreign element, chain transaction) through the validator only. non-trivial = a pool of >= 2 elements from which Candidate selects some but not all (finalized parent) / a non-empty extra list; distinct = distinct Coq case term",
+		Rule: "scenarios on a real service.Manager (real pools, TXIDManager, locator manager, transitions; basic platform; in-memory db): genesis with random balances (0, tight, large), step price {0,1,7,10,1000}, step costs, timestamp threshold {default 5 min, 1, 2, 5, 50 ms}; 1..5 blocks with block timestamps stepping by {1, 2, 500, th/2, th-1, th, th+1, 2th, 2th+1, 3th, 5th} (eviction, maxTSInDB); per block a fresh pool of 0..12 signed v3 transactions (timestamps at bts-th-1, bts-th, bts-th+1, bts+-1, bts+th-1, bts+th, bts+th+1, inside, far outside; four shared senders with values that exhaust / exceed by one / leave one of the working balance; recipients that spend what they just received; from = to; step limits at minimum, minimum-1; message data; transactions of earlier blocks offered again; the same transaction added twice), limits at prefix sums of the sizes +-1, counts 1..4, defaults (<= 0); one block in four followed by a block proposed on an unfinalized parent; every second block after the first with a patch-group pool (patch transactions of earlier patched transitions offered again); plus extra lists (whole pool, duplicate, reversed, foreign element, chain transaction) through the validator only. non-trivial = a pool of >= 2 elements from which Candidate selects some but not all (finalized parent) / a non-empty extra list; distinct = distinct Coq case term",
 		Preamble: "From Goloop Require Import lib.Bytes Model_Locator Model_TxPool.\nFrom GoloopRun Require Import Run_C37.",
 		Gen:      gen, Replay: replay, Shard: 150,
 	})
